@@ -30,6 +30,19 @@ TWINS = [
     ('skoolkit/snapshot.py', r"    'a': 0,\n    'f': 1,", "    'f': 1,\n    'a': 0,", 'Z80_REGISTERS: reorder two entries'),
     ('skoolkit/tape.py', r'pulses = \(\(3223 \+ 4840 \* \(first_byte == 0\), 2168\), \(1, 667\), \(1, 735\)\)', 'pilot = 3223 + 4840 * (first_byte == 0)\n    pulses = ((pilot, 2168), (1, 667), (1, 735))', '_get_tape_block_timings: name the pilot length'),
     ('skoolkit/bin2tap.py', r'    table_addr = address \+ 38\n', '    table_addr = 38 + address\n', '_get_bank_loader: commute an addition'),
+    ('skoolkit/snapshot.py', r'        self\.border = \(self\.header\[12\] // 2\) % 8\n', '        self.border = (self.header[12] >> 1) & 7\n', 'Z80._read: border bits by shift and mask'),
+    ('skoolkit/snapshot.py', r'            if count > 4 or \(count > 1 and prev_b == 237\):\n                block\.extend\(\(237, 237, count, prev_b\)\)\n            elif prev_b == 237:', '            long_run = count > 4 or (count > 1 and prev_b == 237)\n            if long_run:\n                block.extend((237, 237, count, prev_b))\n            elif prev_b == 237:', '_make_z80_ram_block: name the run test inside the loop'),
+    ('skoolkit/snapshot.py', r'        self\.a = self\.header\[0\]\n        self\.f = self\.header\[1\]\n', '        h = self.header\n        self.a, self.f = h[0], h[1]\n', 'Z80._read: header through a local, tuple assignment'),
+    ('skoolkit/trace.py', r'            next_int = \(\(tstates \+ frame_duration - int_active\) // frame_duration\) \* frame_duration\n', '            frame_start = (tstates // frame_duration) * frame_duration\n            next_int = frame_start if tstates < frame_start + int_active else frame_start + frame_duration\n', 'trace.run: next interrupt in the two-step form'),
+    ('skoolkit/tape.py', r'                key = \(timings\.zero, timings\.one\)\n', '                key = (tuple(timings.zero), tuple(timings.one))\n', 'get_edges: cache key through tuple()'),
+    ('skoolkit/image.py', r'        min_x, min_y = x1, y1\n', '        min_x = x1\n        min_y = y1\n', '_get_colours: split a tuple assignment'),
+    ('skoolkit/graphics.py', r'    udg\.flip\(flip\)\n    udg\.rotate\(rotate\)\n', '    if flip:\n        udg.flip(flip)\n    if rotate:\n        udg.rotate(rotate)\n', 'build_udg: skip no-op flip/rotate'),
+    ('skoolkit/snactl.py', r'                    next_ctl = ctls\[a\]\n                    del ctls\[a\]\n', '                    next_ctl = ctls.pop(a)\n', '_find_terminal_instruction: pop instead of read + del'),
+    ('skoolkit/skoolhtml.py', r'        key = \(cwd, address, desc\)\n', '        key = (desc, cwd, address)\n', '_get_map_entry_dict: reorder the cache key'),
+    ('skoolkit/cmiosimulator.py', r"            registers\[29\] = \(\(memory\[pc1\] \+ 1\) % 256\) \+ 256 \* registers\[0\] # MEMPTR\n            if self\.out_tracer:\n                a = registers\[0\]\n                self\.out_tracer\(registers, memory\[pc1\] \+ 256 \* a, a, 12 \+ delay\)", "            n = memory[pc1]\n            registers[29] = ((n + 1) % 256) + 256 * registers[0] # MEMPTR\n            if self.out_tracer:\n                a = registers[0]\n                self.out_tracer(registers, n + 256 * a, a, 12 + delay)", 'CMIOSimulator.out_a: operand byte through a local'),
+    ('skoolkit/rzxplay.py', r"        self\.out7ffd = context\.snapshot\.out7ffd\n        self\.outfffd = context\.snapshot\.outfffd\n", "        self.outfffd = context.snapshot.outfffd\n        self.out7ffd = context.snapshot.out7ffd\n", 'RZXTracer.__init__: reorder two initialisations'),
+    ('skoolkit/loadtracer.py', r"        registers\[0:2\], registers\[16:18\] = registers\[16:18\], registers\[0:2\]\n        registers\[IFF\] = 0\n", "        registers[IFF] = 0\n        registers[0:2], registers[16:18] = registers[16:18], registers[0:2]\n", 'fast_load: swap two independent statements'),
+    ('skoolkit/skoolmacro.py', r"        if _writer:\n            params = _writer\.expand\(params, \*_cwd\)\n        if fields is not None:\n            params = _format_params\(params, params, \*\*fields\)\n", "        if _writer:\n            expanded = _writer.expand(params, *_cwd)\n        else:\n            expanded = params\n        if fields is not None:\n            params = _format_params(expanded, expanded, **fields)\n        else:\n            params = expanded\n", 'parse_ints: expanded text through its own variable'),
 ]
 
 def run(prop, mod, repo):
